@@ -573,7 +573,13 @@ def _chop(frame: Subframe, time: sc.Variable, close_to_open: bool) -> Subframe |
         if inside_i != inside_j:
             # Intersection
             t = (time - frame.time[i]) / (frame.time[j] - frame.time[i])
-            v = (1 - t) * frame.wavelength[i] + t * frame.wavelength[j]
+            wi, wj = frame.wavelength[i], frame.wavelength[j]
+            # The new vertex lies on the edge (i, j), so its wavelength lies between
+            # wi and wj. Make sure that rounding does not move it outside, not even
+            # by one bit: Subframe.is_regular relies on exact ties of the extreme
+            # wavelengths (e.g., wi == wj on the lower and upper edge of a frame).
+            v = wi + t * (wj - wi)
+            v = max(min(v, max(wi, wj)), min(wi, wj))
             output.append((time, v))
     if not output:
         return None
